@@ -339,6 +339,34 @@ def judge_parallel(prop_id, traces, known, verdict, chunk_lines=30000, par=6):
     return len(todo), lines
 
 
+def replay_paths(binary, sc, pf, of, n, waits):
+    """Runs the replay driver on the paths of pf.  Configurations with waiting calls identify a call
+    parked on the mutex by goroutine dumps, which stop the whole Go process: those are replayed by
+    several driver processes with few path workers each."""
+    procs = 4 if waits and n > 2000 else 1
+    if procs == 1:
+        obs, _ = family.run_driver(binary, "TestVerifLRUReplay", pf, of, sc)
+        return obs
+    lines = open(pf).read().splitlines(True)
+    per = (len(lines) + procs - 1) // procs
+    parts = []
+    for i in range(procs):
+        sub = pf + ".%d" % i
+        open(sub, "w").writelines(lines[i * per:(i + 1) * per])
+        parts.append((sub, of + ".%d" % i))
+    nw = str(max(2, (os.cpu_count() or 8) // procs))
+    with ThreadPoolExecutor(max_workers=procs) as ex:
+        res = list(ex.map(lambda p: family.run_driver(binary, "TestVerifLRUReplay", p[0], p[1], sc,
+                                                      env_extra={"VERIF_WORKERS": nw})[0], parts))
+    obs = []
+    for r, (sub, o) in zip(res, parts):
+        obs += r
+        os.remove(sub)
+        os.remove(o)
+    open(of, "w").close()
+    return obs
+
+
 def free_run(binary, sc, tier, seed, first_id):
     obs, cfgs = [], []
     for i, c0 in enumerate(FREE[tier]):
@@ -428,7 +456,7 @@ def run(prop_id, tier, seed, replay=None):
                         f.write(json.dumps(d, separators=(",", ":")) + "\n")
                         next_id += 1
                 of = os.path.join(sc, "obs-%s-%d.ndjson" % (c["name"], b0))
-                obs_c, _ = family.run_driver(binary, "TestVerifLRUReplay", pf, of, sc)
+                obs_c = replay_paths(binary, sc, pf, of, len(exp), bool(c["consts"].get("Waits")))
                 ns_, nd, smp = family.drift(pf, obs_c, label=label)
                 dsteps += ns_
                 ddrift += nd
